@@ -4,6 +4,13 @@ import json, os
 V = os.path.dirname(os.path.dirname(os.path.abspath(__file__)))
 props = [json.loads(l)["id"] for l in open(os.path.join(V, "properties.jsonl"))]
 claims = json.load(open(os.path.join(V, "tools", "claims.json")))
+def _level(p):
+    f = os.path.join(V, "evidence", p + ".json")
+    if os.path.exists(f):
+        return json.load(open(f)).get("level", "proof")
+    return "proof"
+
+
 checks, na = [], []
 for p in props:
     c = claims.get(p)
@@ -15,7 +22,7 @@ for p in props:
             "evidence_file": f"/verif/evidence/{p}.json",
             "replay_cmd_template": f"./check {p} --replay {{path}}",
             "engine": "pyvc",
-            "level_claimed": {"category": "proof", "text": c["text"], "design_ref": c.get("design_ref", "DESIGN.md §5")},
+            "level_claimed": {"category": _level(p), "text": c["text"], "design_ref": c.get("design_ref", "DESIGN.md §0, §5")},
             "level_note": c["note"],
             "technique": c.get("technique", "contract-based deductive verification: sidecar contracts on the real functions, VCs generated from /repo's AST by pyvc, discharged by z3/cvc5"),
         })
